@@ -117,7 +117,7 @@ def rng_context(spec):
 class RewardLaw:
     """Reward of round i (1-based) at point x: a pure function of the case."""
 
-    POINT_DEPENDENT = ("peak", "peakpos", "bump")
+    POINT_DEPENDENT = ("peak", "peakpos", "bump", "twolevel")
 
     def __init__(self, spec, domain):
         self.spec = spec
@@ -168,11 +168,21 @@ class RewardLaw:
             return (2 * z - 1) * 1e6
         if law == "alternating":
             return p.get("a", 1.0) * (1 if i % 2 else -1)
+        if law == "neg_then_zero":  # strictly negative up to round r0, exactly 0 afterwards
+            return 0.0 if i >= p.get("r0", 10 ** 9) else -(0.05 + z)
         if law == "neartie":  # distinct values within a relative 1e-9 of each other (never exactly tied)
             k = int(z * 7)
             return p.get("c", 1.0) * (1.0 - k * 1.5e-10)
         if law == "ramp":  # strictly increasing, all distinct
             return i * p.get("s", 0.01) + 1e-3 * z
+        if law == "twolevel":  # a smooth function of the point plus a two- or three-level noise of small amplitude
+            u = self.unit(x)
+            star = p.get("star", [0.3] * len(u))
+            dist = sum(abs(a - star[k % len(star)]) for k, a in enumerate(u)) / max(1, len(u))
+            amp = p.get("amp", 0.035)
+            lev = p.get("levels", 2)
+            step = (int(z * lev) % lev) - (lev - 1) / 2.0
+            return 1.0 - dist + amp * step * (2.0 if lev == 2 else 1.0)
         if law in ("peak", "peakpos", "bump"):
             u = self.unit(x)
             star = p.get("star", [0.3] * len(u))
@@ -363,7 +373,7 @@ class Session:
 
     Use as a context manager so that the RNG stubs are removed again."""
 
-    def __init__(self, case, record_learners=False, record_partitions=True):
+    def __init__(self, case, record_learners=False, record_partitions=True, domain_obj=None):
         self.case = case
         self.clock = Clock()
         self.recs = []
@@ -375,7 +385,8 @@ class Session:
         self.learner_calls = []
         self.record_learners = record_learners
         self.record_partitions = record_partitions
-        self.domain = copy.deepcopy(case["domain"])  # the object handed to PyXAB
+        # the object handed to PyXAB (optionally one that another session uses as well)
+        self.domain = domain_obj if domain_obj is not None else copy.deepcopy(case["domain"])
         self.domain_snapshot = copy.deepcopy(case["domain"])
         self.domain_inner_ids = [id(x) for x in self.domain]
         self.d = len(self.domain)
